@@ -39,7 +39,12 @@ Record startup := {
   su_prio : Z;             (* priority the port had when taken *)
   su_port : Z;             (* port taken from the pool, not in the pool now *)
   su_point : Z;            (* suspended at point 1 (not bound yet) or 2 (listener bound, not returned) *)
+  su_legacy : bool;        (* started by PASV (true) or EPSV (false): decides the reply on an IPv6 listener *)
 }.
+
+Definition mark (b : bool) (su : startup) : startup :=
+  {| su_viewed := su_viewed su; su_prio := su_prio su; su_port := su_port su; su_point := su_point su;
+     su_legacy := b |}.
 
 Inductive head_result :=
 | HStart (pool' : list item) (su : startup)        (* suspended in start_server *)
@@ -55,7 +60,8 @@ Definition loop_head (hier : bool) (pool : list item) (viewed : list Z) : head_r
       if memz port viewed then
         if hier then HExit (put (prio + 1, port) rest) []
         else HExit rest [port]
-      else HStart rest {| su_viewed := port :: viewed; su_prio := prio; su_port := port; su_point := 1 |}
+      else HStart rest {| su_viewed := port :: viewed; su_prio := prio; su_port := port; su_point := 1;
+                          su_legacy := false |}
   end.
 
 (* ------------------------------------------------------------------ sessions *)
@@ -80,6 +86,10 @@ Record pconfig := {
   pc_giveback : bool;              (* Gen.PortPool: _start_passive_server has the `except BaseException` give-back
                                       (close what is bound, put (priority, port), re-raise) and keeps the handle of
                                       the bound listener (start_serving split).  false on the current source (F5) *)
+  pc_ipv6 : bool;                  (* the server listens on an IPv6 address: the sockets of a passive listener are
+                                      AF_INET6, legacy PASV (which can only announce an IPv4 address) answers
+                                      503 "this server started in ipv6 mode" and `return False` AFTER the listener
+                                      was opened and stored - one more way for a session to end *)
   pc_recheck : bool;               (* Gen.PortPool: after the start-up, a listener stored meanwhile by an overlapping
                                       PASV/EPSV is kept and this one is given back.  false on the current source (F5b) *)
 }.
@@ -217,7 +227,7 @@ Inductive outcome := BindOk | AddrInUse | OtherOSError.
 
 Inductive pevent :=
 | PConnect                                  (* a new, logged-in session *)
-| Pasv (i : nat)                            (* PASV or EPSV (same port logic) *)
+| Pasv (i : nat) (legacy : bool)            (* PASV (legacy = true) or EPSV: same port logic, different reply on IPv6 *)
 | Resume (i k : nat) (o : outcome)          (* the k-th start-up in flight of session i continues *)
 | Work (i : nat)                            (* any other command / transfer: does not touch the pool *)
 | End_ (i : nat)                            (* QUIT, peer gone, timeout, handler error: the finally runs *)
@@ -245,21 +255,26 @@ Fixpoint replace_nth {A} (k : nat) (x : A) (l : list A) : list A :=
   | y :: r, S j => y :: replace_nth j x r
   end.
 
+(* the reply after the listener is stored: 227/229, or - legacy PASV on an IPv6 listener - 503 and `return False` *)
+Definition v6_reply (cfg : pconfig) (i : nat) (legacy : bool) (r : pstate * list pout) : pstate * list pout :=
+  if pc_ipv6 cfg && legacy then (end_psess cfg i (fst r), [(i, 503)]) else r.
+
 Definition pstep (cfg : pconfig) (st : pstate) (e : pevent) : pstate * list pout :=
   match e with
   | PConnect =>
       ({| pp_pool := pp_pool st;
           pp_sess := pp_sess st ++ [{| p_live := true; p_passive := None; p_inflight := [] |}];
           pp_orphans := pp_orphans st; pp_lost := pp_lost st |}, [])
-  | Pasv i =>
+  | Pasv i lg =>
       match plive st i with
       | Some s =>
           match p_passive s with
-          | Some _ => (st, [(i, 227)])              (* listen socket already exists *)
+          | Some _ =>                               (* listen socket already exists *)
+              if pc_ipv6 cfg && lg then (end_psess cfg i st, [(i, 503)]) else (st, [(i, 227)])
           | None =>
               match loop_head (pc_hier cfg) (pp_pool st) [] with
               | HStart pool' su =>
-                  (set_psess i {| p_live := true; p_passive := None; p_inflight := p_inflight s ++ [su] |}
+                  (set_psess i {| p_live := true; p_passive := None; p_inflight := p_inflight s ++ [mark lg su] |}
                              (with_pool pool' [] st), [])
               | HExit pool' lost =>                  (* 421 no free ports; return False ends the session *)
                   (end_psess cfg i (with_pool pool' lost st), [(i, 421)])
@@ -279,14 +294,15 @@ Definition pstep (cfg : pconfig) (st : pstate) (e : pevent) : pstate * list pout
                 | BindOk =>
                     (set_psess i {| p_live := true; p_passive := p_passive s;
                                     p_inflight := replace_nth k {| su_viewed := su_viewed su; su_prio := su_prio su;
-                                                                   su_port := su_port su; su_point := 2 |}
+                                                                   su_port := su_port su; su_point := 2;
+                                                                   su_legacy := su_legacy su |}
                                                               (p_inflight s) |} st, [])
                 | AddrInUse =>
                     let pool1 := put (su_prio su + 1, su_port su) (pp_pool st) in
                     match loop_head (pc_hier cfg) pool1 (su_viewed su) with
                     | HStart pool2 su' =>
                         (set_psess i {| p_live := true; p_passive := p_passive s;
-                                        p_inflight := replace_nth k su' (p_inflight s) |}
+                                        p_inflight := replace_nth k (mark (su_legacy su) su') (p_inflight s) |}
                                    (with_pool pool2 [] st), [])
                     | HExit pool2 lost =>
                         (end_psess cfg i
@@ -304,7 +320,9 @@ Definition pstep (cfg : pconfig) (st : pstate) (e : pevent) : pstate * list pout
                 end
               else
                 (* start_server returns: passive_server_port = port; connection.passive_server = server.
-                   A listener stored before (by an overlapping start-up) is overwritten: nobody owns it *)
+                   A listener stored before (by an overlapping start-up) is overwritten: nobody owns it.
+                   Then the reply: on an IPv6 listener legacy PASV finds no AF_INET socket: 503 and the session ends *)
+                v6_reply cfg i (su_legacy su) (
                 if pc_recheck cfg && (match p_passive s with Some _ => true | None => false end) then
                   (* fixed source: the listener stored meanwhile is kept, this one is closed and its port given back *)
                   ({| pp_pool := put (su_prio su, su_port su) (pp_pool st);
@@ -316,7 +334,7 @@ Definition pstep (cfg : pconfig) (st : pstate) (e : pevent) : pstate * list pout
                 ({| pp_pool := pp_pool st;
                     pp_sess := upd i (fun _ => {| p_live := true; p_passive := Some (su_port su);
                                                   p_inflight := remove_nth k (p_inflight s) |}) (pp_sess st);
-                    pp_orphans := pp_orphans st ++ old; pp_lost := pp_lost st ++ old |}, [(i, 227)])
+                    pp_orphans := pp_orphans st ++ old; pp_lost := pp_lost st ++ old |}, [(i, 227)]))
           | None => (st, [])
           end
       | None => (st, [])
@@ -348,7 +366,7 @@ Definition no_inflight (st : pstate) (i : nat) : bool :=
 
 Definition quiet_ev (cfg : pconfig) (st : pstate) (e : pevent) : bool :=
   match e with
-  | Pasv i => no_inflight st i
+  | Pasv i _ => no_inflight st i
   | End_ i => pc_giveback cfg || no_inflight st i
   | CloseAll => pc_giveback cfg
                 || forallb (fun s => match p_inflight s with [] => true | _ => false end) (pp_sess st)
@@ -466,14 +484,15 @@ Definition string_of_text (t : text) : string :=
 
 Definition nat_of_sx (s : sx) : nat := Z.to_nat (z_of_sx s).
 
-(* config: [ports; hier; fin; loop_open; giveback; recheck] *)
+(* config: [ports; hier; fin; loop_open; giveback; recheck; ipv6] *)
 Definition pconfig_of_sx (s : sx) : pconfig :=
   {| pc_ports := map z_of_sx (list_of_sx (nth_sx 0 s));
      pc_hier := bool_of_sx (nth_sx 1 s);
      pc_fin := map (fun t => string_of_text (text_of_sx t)) (list_of_sx (nth_sx 2 s));
      pc_loop_open := bool_of_sx (nth_sx 3 s);
      pc_giveback := bool_of_sx (nth_sx 4 s);
-     pc_recheck := bool_of_sx (nth_sx 5 s) |}.
+     pc_recheck := bool_of_sx (nth_sx 5 s);
+     pc_ipv6 := bool_of_sx (nth_sx 6 s) |}.
 
 (* event: [tag; i; k; outcome] *)
 Definition pevent_of_sx (s : sx) : pevent :=
@@ -481,7 +500,7 @@ Definition pevent_of_sx (s : sx) : pevent :=
   let k := nat_of_sx (nth_sx 2 s) in
   match z_of_sx (nth_sx 0 s) with
   | 0 => PConnect
-  | 1 => Pasv i
+  | 1 => Pasv i (negb (Nat.eqb k 0))
   | 2 => Resume i k (match z_of_sx (nth_sx 3 s) with 0 => BindOk | 1 => AddrInUse | _ => OtherOSError end)
   | 3 => Work i
   | 4 => End_ i
@@ -492,7 +511,7 @@ Definition pevent_of_sx (s : sx) : pevent :=
 Definition sx_of_zs (l : list Z) : sx := L (map I l).
 
 Definition sx_of_startup (su : startup) : sx :=
-  L [sx_of_zs (su_viewed su); I (su_prio su); I (su_port su); I (su_point su)].
+  L [sx_of_zs (su_viewed su); I (su_prio su); I (su_port su); I (su_point su); sx_of_bool (su_legacy su)].
 
 Definition sx_of_psess (s : psess) : sx :=
   L [sx_of_bool (p_live s); sx_of_option I (p_passive s); L (map sx_of_startup (p_inflight s))].
